@@ -197,6 +197,17 @@ CORE = [
       'indexes': [{'fields': ['a'], 'name': 'a_a_lookup'}]},
      [{'op': 'change_field', 'app': 'app1', 'model': 'A', 'name': 'a',
        'attrs': {'db_index': False}}]),
+    # field indexes of several columns of one model dropped / created in
+    # one upgrade
+    ({'__a__': {'db_index': True}},
+     [{'op': 'change_field', 'app': 'app1', 'model': 'A', 'name': 'a',
+       'attrs': {'db_index': False}},
+      {'op': 'change_field', 'app': 'app1', 'model': 'A', 'name': 'b',
+       'attrs': {'db_index': True}},
+      {'op': 'change_field', 'app': 'app1', 'model': 'A', 'name': 'd',
+       'attrs': {'db_index': True}},
+      {'op': 'change_field', 'app': 'app1', 'model': 'A', 'name': 'c',
+       'attrs': {'db_index': True}}]),
 ]
 
 
